@@ -383,7 +383,7 @@ pub fn run() -> Report {
             }
             // options that have nothing to do with the content of the dump: every third case at another verbosity
             spec.verbosity = [0u8, 0, 3][i % 3];
-            spec.env.push(("VERIF_PATH_FORM".into(), ((i / 3) % 9).to_string()));
+            spec.env.push(("VERIF_PATH_FORM".into(), ((i / 3) % 10).to_string()));
             // ... and the passage of time is an input too: every fourth case under a virtual monotonic clock (a status
             // line falls due after every block, after every tenth, never; a machine suspended for an hour between blocks)
             if i % 4 == 1 {
